@@ -627,15 +627,17 @@ Proof.
   - (* PNotDirty *)
     simpl in Ht. pose proof (valid_idx_lt _ _ Ht) as Hi.
     destruct (st_at s i) eqn:Est; inversion Hs; subst; clear Hs;
-      try (eapply inv_silent; eauto; split; simpl; auto).
+      [ | eapply inv_silent; eauto; split; simpl; auto | eapply inv_silent; eauto; split; simpl; auto ].
     assert (Hsc : nth i (sidecar s) 0%N <> 1%N).
     { intros H. apply (I_sc_nonempty _ _ I i Hi H). exact Est. }
     destruct (others_not_own s pre (mkth w (PNotDirty i)) post i I Hi) as [Z1 Z2];
       [right; rewrite Est; discriminate|].
-    eapply inv_frame_step with (i0 := i); eauto.
+    refine (inv_frame_step s _ pre post w _ _ i I Hi _ Z1 Z2 _ _ _ _ _ _ _ _ _ _ _ _).
     + rewrite Est. discriminate.
     + apply frame_set_status.
     + simpl. rewrite length_upd. auto.
+    + exact Lsc.
+    + exact Lf.
     + split; [exact Hin|]. simpl. split; auto. split; [apply st_at_upd_eq; lia | exact Hsc].
     + rewrite st_at_upd_eq by lia. discriminate.
     + rewrite st_at_upd_eq by lia. discriminate.
@@ -669,13 +671,15 @@ Proof.
       destruct Hh as [Hd Hsc].
       destruct (others_not_own s pre (mkth w (PWriting i (poff c i + length dn) (ch :: rest))) post i I Hi)
         as [Z1 Z2]; [left; reflexivity|].
-      eapply inv_frame_step with (i0 := i); eauto.
+      refine (inv_frame_step s _ pre post w _ _ i I Hi _ Z1 Z2 _ _ _ _ _ _ _ _ _ _ _ _).
       * rewrite Hd. discriminate.
       * constructor; simpl; auto. intros j m Hj Hjn Hm.
         apply pwrite_disjoint; [lia|].
         destruct (Nat.lt_ge_cases j i) as [Hlt|Hge].
         -- left. pose proof (regions_ordered c Hwf j i Hlt). lia.
         -- right. pose proof (regions_ordered c Hwf i j ltac:(lia)). lia.
+      * exact Lst.
+      * exact Lsc.
       * simpl. rewrite length_pwrite; lia.
       * split; [exact Hin|]. simpl. refine (conj Hv (conj (conj Hd Hsc) _)).
         exists (dn ++ ch). rewrite app_length. repeat split.
@@ -687,6 +691,8 @@ Proof.
       * simpl. intros H. contradiction.
       * rewrite dirty01_cases. unfold st_at in *. simpl. rewrite Hd. apply own1_owner. reflexivity.
       * simpl. auto.
+      * simpl. lia.
+      * simpl. auto.
   - (* PSummed *)
     simpl in Ht. destruct Ht as (Hv & Hh & Hsum & Hw). pose proof (valid_idx_lt _ _ Hv) as Hi.
     destruct (incache s) eqn:Ec.
@@ -694,25 +700,32 @@ Proof.
     assert (E : (i <? length (sidecar s)) = true) by (apply Nat.ltb_lt; lia). rewrite E in Hs.
     inversion Hs; subst; clear Hs. destruct Hh as [Hd Hsc].
     destruct (others_not_own s pre (mkth w (PSummed i)) post i I Hi) as [Z1 Z2]; [left; reflexivity|].
-    eapply inv_frame_step with (i0 := i); eauto.
+    refine (inv_frame_step s _ pre post w _ _ i I Hi _ Z1 Z2 _ _ _ _ _ _ _ _ _ _ _ _).
     + rewrite Hd. discriminate.
     + constructor; simpl; auto. intros. apply nth_upd_neq. auto.
+    + exact Lst.
     + simpl. rewrite length_upd. auto.
+    + exact Lf.
     + split; [exact Hin|]. simpl. refine (conj Hv (conj Hd (conj _ Hsum))). apply nth_upd_eq. lia.
     + simpl. intros _. apply nth_upd_eq. lia.
     + unfold st_at in *. simpl. rewrite Hd. discriminate.
     + intros _. exists w. refine (conj Hv (conj Hsum _)). exact Hw.
     + rewrite dirty01_cases. unfold st_at in *. simpl. rewrite Hd. apply own1_owner. reflexivity.
     + simpl. auto.
+    + simpl. lia.
+    + simpl. auto.
   - (* PSidecar *)
     simpl in Ht. destruct Ht as (Hv & Hd & Hsc & Hsum). pose proof (valid_idx_lt _ _ Hv) as Hi.
     inversion Hs; subst; clear Hs.
     destruct (others_not_own s pre (mkth w (PSidecar i)) post i I Hi) as [Z1 Z2]; [left; reflexivity|].
-    eapply inv_frame_step with (i0 := i); eauto.
+    refine (inv_frame_step s _ pre post w _ _ i I Hi _ Z1 Z2 _ _ _ _ _ _ _ _ _ _ _ _).
     + rewrite Hd. discriminate.
     + apply frame_set_status.
     + simpl. rewrite length_upd. auto.
+    + exact Lsc.
+    + exact Lf.
     + split; [exact Hin|]. simpl. exists i. refine (conj Hv (conj Hsum _)). apply st_at_upd_eq. lia.
+    + intros _. exact Hsc.
     + rewrite st_at_upd_eq by lia. discriminate.
     + simpl. intros _. eapply verified_ext; [|apply (I_verified _ _ I i Hi Hsc)]. reflexivity.
     + rewrite dirty01_cases, st_at_upd_eq by lia. apply own1_none. reflexivity.
@@ -749,10 +762,12 @@ Proof.
     simpl in Ht. destruct Ht as (Hv & [Hd Hsc] & Hsum). pose proof (valid_idx_lt _ _ Hv) as Hi.
     inversion Hs; subst; clear Hs.
     destruct (others_not_own s pre (mkth w (PFailed i)) post i I Hi) as [Z1 Z2]; [left; reflexivity|].
-    eapply inv_frame_step with (i0 := i); eauto.
+    refine (inv_frame_step s _ pre post w _ _ i I Hi _ Z1 Z2 _ _ _ _ _ _ _ _ _ _ _ _).
     + rewrite Hd. discriminate.
     + apply frame_set_status.
     + simpl. rewrite length_upd. auto.
+    + exact Lsc.
+    + exact Lf.
     + split; [exact Hin|]. simpl. exists i. auto.
     + rewrite st_at_upd_eq by lia. discriminate.
     + simpl. intros H. contradiction.
